@@ -2,7 +2,7 @@
 Require Import GSE.gen.HLenTable GSE.model.Base GSE.model.Types GSE.model.Header GSE.model.Ext GSE.model.Encap GSE.model.Memory GSE.model.Decap
   GSE.proofs.Tactics GSE.proofs.BaseLemmas GSE.proofs.HeaderLemmas GSE.proofs.EncapSpec GSE.proofs.EncapProps
   GSE.proofs.FragRun GSE.proofs.MemoryLemmas GSE.proofs.DecapBase GSE.proofs.DecapSpec GSE.proofs.DecapProps GSE.proofs.RoundTrip GSE.proofs.FragTrip
-  GSE.proofs.ExtSpec GSE.proofs.ExtTrip.
+  GSE.proofs.ExtSpec GSE.proofs.ExtTrip GSE.proofs.MgrOf.
 Open Scope N_scope.
 
 (* Vocabulary (proofs/ExtTrip.v):
@@ -72,6 +72,14 @@ Proof.
   destruct st as [n|n c]; [eapply encap_ext_completed|eapply encap_ext_fragmented]; eauto.
 Qed.
 
+(* ... and what it answers Ok for is decodable: when the chain uses each mandatory id once, the manager read off
+   the chain (mgr_of: every mandatory extension NonFinal(|data|), the last one Final(|data|) when the protocol type is
+   below 0x0100) knows it, so c13_complete_roundtrip / c13_fragmented_roundtrip apply to that receiver *)
+Theorem c13_decodable : forall crc S pdu fid pt lab buf exts S' buf' st, enc_wf S -> label_wf lab -> Forall ext_built exts ->
+  encap_ext crc S pdu fid pt lab buf exts = Ret (S', buf', inl st) -> NoDup (mand_ids exts) ->
+  chain_known (mgr_of exts (pt <? 256)) exts (pt <? 256).
+Proof. intros. apply decodable_exists; auto. eapply c13_encodable; eauto. Qed.
+
 (* Whenever decap reports an unknown mandatory extension, the input started with a complete or first packet, the
    call consumed exactly that packet's length (GSE length + 2) and the memory (free buffers, contexts) is untouched *)
 Theorem c13_unknown_whole_packet : forall crc mgr R buf R' n, dstate_wf R -> bytes_ok buf ->
@@ -135,6 +143,7 @@ Print Assumptions c13_encap_ext_total.
 Print Assumptions c13_complete_roundtrip.
 Print Assumptions c13_fragmented_roundtrip.
 Print Assumptions c13_encodable.
+Print Assumptions c13_decodable.
 Print Assumptions c13_unknown_whole_packet.
 Print Assumptions c13_unknown_mandatory.
 Print Assumptions c13_new.
